@@ -306,6 +306,10 @@ impl Model for M {
 		w.mine_n("A", 4);
 		w.mine_n("B", 5);
 		w.mine_n("M", 3);
+		// (log entries of rewards are written by the refresh of the account that holds them)
+		w.w("A").set_account("acct1").unwrap();
+		w.w("A").refresh().unwrap();
+		w.w("A").set_account("default").unwrap();
 		w.w("A").refresh().unwrap();
 		w.w("B").refresh().unwrap();
 		let mut art = Art::default();
@@ -671,7 +675,7 @@ impl Model for M {
 					&& new_txs.len() <= 1
 					&& !(new_outs.is_empty() && new_txs.is_empty())
 					&& new_outs.iter().all(|(_, o)| o["status"] == "Unconfirmed" && o["is_coinbase"] == false)
-					&& new_txs.iter().all(|(_, t)| t["tx_type"] == "TxReceived") =>
+					&& new_txs.iter().all(|(_, t)| t["tx_type"] == "TxReceived" || t["tx_type"] == "TxReceivedCancelled") =>
 			{
 				// A receive that is refused late (the sender's partial signature is checked after the recipient's
 				// output and log entry have been written) leaves the footprint of a successful one behind. The
